@@ -29,6 +29,13 @@ func (x *Explorer) builtin(st *State, f *Frame, ins ssa.Instruction, b *ssa.Buil
 	case "copy":
 		return x.doCopy(st, args[0], args[1])
 	case "min", "max":
+		if bt, ok := c.Args[0].Type().Underlying().(*types.Basic); ok && bt.Info()&types.IsFloat != 0 {
+			r := asInt(args[0])
+			for _, a := range args[1:] {
+				r = UF("f"+b.Name(), SInt, r, asInt(a))
+			}
+			return VInt{T: r}
+		}
 		r := asInt(args[0])
 		for _, a := range args[1:] {
 			t := asInt(a)
@@ -498,11 +505,52 @@ func (x *Explorer) libModel(st *State, f *Frame, ins ssa.Instruction, key string
 		return VInt{T: asInt(args[0])}, true
 	case "time.Duration.Milliseconds":
 		return VInt{T: UF("tdiv", SInt, asInt(args[0]), IntLit(1000000))}, true
+	case "context.WithTimeout", "context.WithCancel", "context.WithDeadline", "context.WithCancelCause", "context.WithTimeoutCause":
+		parent, _ := args[0].(VIface)
+		ctx := VIface{Tag: IntLit(e.typeID(types.Typ[types.Int]) + 600000), Val: st.freshInt("ctx")}
+		if parent.Val != nil {
+			// a cancelled parent cancels the child
+			st.addFact(Implies(UF("ctxdone", SBool, parent.Val), UF("ctxdone", SBool, ctx.Val)))
+		}
+		return VTuple{E: []Val{ctx, VFunc{ID: IntLit(noopFuncID)}}}, true
+	case "context.WithValue":
+		return args[0], true
+	case "time.After", "time.Tick":
+		return VInt{T: st.freshInt("timer_ch")}, true
+	case "fmt.Sprintf", "fmt.Sprint", "fmt.Sprintln":
+		r := st.freshInt("sprintf")
+		minLen := 0
+		if key == "fmt.Sprintf" {
+			if ft := asInt(args[0]); ft.IsLit() {
+				// every literal (non-verb) character of the format appears in the result
+				format := e.strByID[ft.Int.Int64()]
+				for i := 0; i < len(format); i++ {
+					if format[i] != '%' {
+						minLen++
+						continue
+					}
+					j := i + 1
+					for j < len(format) && strings.ContainsRune("+-# 0123456789.*[]", rune(format[j])) {
+						j++
+					}
+					if j < len(format) && format[j] == '%' {
+						minLen++
+					}
+					i = j
+				}
+			}
+		}
+		st.addFact(Ge(UF("strlen", SInt, r), IntLit(int64(minLen))))
+		return VInt{T: r}, true
+	case "fmt.Println", "fmt.Printf", "fmt.Print", "fmt.Fprintf", "fmt.Fprintln":
+		return x.freshResults(st, sig, "print"), true
 	case "context.Background", "context.TODO":
 		return VIface{Tag: IntLit(e.typeID(types.Typ[types.Int]) + 600000), Val: IntLit(e.strID("ctx:" + key))}, true
 	}
 	return nil, false
 }
+
+const noopFuncID = 6999999
 
 func (x *Explorer) binopAdd(st *State, a, b Val, t types.Type) Val {
 	s := Add(asInt(a), asInt(b))
